@@ -499,6 +499,30 @@ func checkC13(c *vlib.Ctx) (string, string) {
 		ck.Try(c13Case{Pattern: s, Valid: true, How: "documented grammar"})
 		ck.Try(c13Case{Pattern: s, Valid: true, How: "documented grammar", Route: 1})
 		ck.Try(c13Case{Pattern: s, Valid: true, How: "documented grammar", Route: 2})
+		// the same host under other schemes (chosen so that byte order and length order of the scheme names disagree),
+		// other ports, and a sibling host that differs in the byte left of a shared suffix (- sorts before .)
+		if !b.wild {
+			hp := b.host
+			if b.port != "" {
+				hp += ":" + b.port
+			}
+			for _, co := range [][]string{{"http://" + hp, "ws://" + hp}, {"wss://" + hp, "https://" + hp, "capacitor://" + hp}, {"zz://" + hp, "a://" + hp, "https://" + hp}, {b.scheme + "://" + b.host + ":81", b.scheme + "://" + b.host + ":*"}} {
+				if _, err := cors.NewMiddleware(cors.Config{Origins: co, ExtraConfig: cors.ExtraConfig{DangerouslyTolerateSubdomainsOfPublicSuffixes: true}}); err != nil {
+					continue // (e.g. a default port under https, an insecure scheme for this host)
+				}
+				ck.Try(c13Case{Pattern: s, Valid: true, How: "documented grammar", Company: co})
+				ck.Try(c13Case{Pattern: s, Valid: true, How: "documented grammar", Company: co, After: true})
+			}
+			if b.kind == "domain" {
+				if i := strings.IndexByte(b.host, '.'); i > 0 && i < 60 {
+					sib := b.scheme + "://" + b.host[:i] + "-" + b.host[i+1:]
+					if _, err := cors.NewMiddleware(cors.Config{Origins: []string{sib}, ExtraConfig: cors.ExtraConfig{DangerouslyTolerateSubdomainsOfPublicSuffixes: true}}); err == nil {
+						ck.Try(c13Case{Pattern: s, Valid: true, How: "documented grammar", Company: []string{sib}})
+						ck.Try(c13Case{Pattern: s, Valid: true, How: "documented grammar", Company: []string{sib}, After: true})
+					}
+				}
+			}
+		}
 		comps := c13Company(b)
 		for _, d := range defects {
 			if m, ok := d.f(b); ok {
